@@ -410,6 +410,8 @@ func (store *KeyStore) WriteKeyFile(filename string, data []byte, mode os.FileMo
 	if err != nil {
 		return err
 	}
+	// the previous content (if any) has just become a rotated key
+	store.forgetHistoricalPrivateKeyFilenames(filename)
 	return nil
 }
 
@@ -450,7 +452,7 @@ var errCacheMissHistoricalFilenames = errors.New("cache doesn't contain historic
 
 func (store *KeyStore) getCachedHistoricalPrivateKeyFilenames(id string) ([]string, error) {
 	key := cacheKeyPrefix + id
-	value, ok := store.cache.Get(key)
+	value, ok := store.Get(key)
 	if !ok {
 		return nil, errCacheMissHistoricalFilenames
 	}
@@ -471,6 +473,13 @@ func (store *KeyStore) cacheHistoricalPrivateKeyFilenames(id string, paths []str
 	key := cacheKeyPrefix + id
 	store.cache.Add(key, serialized)
 	return nil
+}
+
+// forgetHistoricalPrivateKeyFilenames drops the cached list of current and rotated file names of the key
+// stored at given path. It must be called whenever a key file is rotated or removed, otherwise readers
+// with a warm cache keep using a list that misses rotated keys or names removed files.
+func (store *KeyStore) forgetHistoricalPrivateKeyFilenames(path string) {
+	store.cache.Add(cacheKeyPrefix+filepath.Clean(path), nil)
 }
 
 // GetHistoricalPrivateKeyFilenames return filenames for current and rotated keys
@@ -539,7 +548,7 @@ func (store *KeyStore) loadPublicKey(path string) (*keys.PublicKey, error) {
 func (store *KeyStore) getPrivateKeyByFilename(filename string, keyContext keystore.KeyContext) (*keys.PrivateKey, error) {
 	store.lock.Lock()
 	defer store.lock.Unlock()
-	encryptedKey, ok := store.cache.Get(filename)
+	encryptedKey, ok := store.Get(filename)
 	if !ok {
 		loadKeyCallback := func() ([]byte, error) {
 			encryptedPrivateKey, err := store.loadPrivateKey(store.GetPrivateKeyFilePath(filename))
@@ -581,7 +590,7 @@ func (store *KeyStore) getPrivateKeysByFilenames(filenames []string, keyContext 
 
 // getPublicKeyByFilename return public key from cache or load from filesystem, store in cache and return
 func (store *KeyStore) getPublicKeyByFilename(filename string) (*keys.PublicKey, error) {
-	binKey, ok := store.cache.Get(filename)
+	binKey, ok := store.Get(filename)
 	if !ok {
 		publicKey, err := store.loadPublicKey(filename)
 		if err != nil {
@@ -611,7 +620,7 @@ func (store *KeyStore) GetPeerPublicKey(id []byte) (*keys.PublicKey, error) {
 	fname := getPublicKeyFilename(id)
 	store.lock.Lock()
 	defer store.lock.Unlock()
-	key, ok := store.cache.Get(fname)
+	key, ok := store.Get(fname)
 	if ok {
 		log.Debugf("Load cached key: %s", fname)
 		return &keys.PublicKey{Value: key}, nil
@@ -887,8 +896,8 @@ func (store *KeyStore) Reset() {
 func (store *KeyStore) GetPoisonKeyPair() (*keys.Keypair, error) {
 	keyContext := keystore.NewKeyContext(keystore.PurposePoisonRecordKeyPair, []byte(PoisonKeyFilename))
 
-	privateKey, privateOk := store.cache.Get(PoisonKeyFilename)
-	publicKey, publicOk := store.cache.Get(poisonKeyFilenamePublic)
+	privateKey, privateOk := store.Get(PoisonKeyFilename)
+	publicKey, publicOk := store.Get(poisonKeyFilenamePublic)
 	if privateOk && publicOk {
 		decryptedPrivate, err := store.cacheEncryptor.Decrypt(store.encryptorCtx, privateKey, keyContext)
 		if err != nil {
@@ -1003,6 +1012,7 @@ func (store *KeyStore) destroyKeyWithFilename(filename string) error {
 	// Purge private key data from cache too.
 	store.cache.Add(filename, nil)
 	store.cache.Add(filename+".pub", nil)
+	store.forgetHistoricalPrivateKeyFilenames(store.GetPrivateKeyFilePath(filename))
 
 	// Remove key files. It's okay if they are already removed (or never existed).
 	// Keystore v1 does not differentiate between 'destroying' and 'removing' keys
@@ -1021,8 +1031,10 @@ func (store *KeyStore) destroyKeyWithFilename(filename string) error {
 
 // destroySymmetricKeyWithFilename removes symmetric key with given filename.
 func (store *KeyStore) destroySymmetricKeyWithFilename(filename string) error {
-	// Purge key data from cache too.
-	store.cache.Add(filename, nil)
+	// Purge key data from cache too. Symmetric keys are cached under their own name,
+	// "filename" itself is the name of the key pair of the same owner and must stay cached.
+	store.cache.Add(getSymmetricKeyName(filename), nil)
+	store.forgetHistoricalPrivateKeyFilenames(store.GetPrivateKeyFilePath(getSymmetricKeyName(filename)))
 
 	// Remove key files. It's okay if they are already removed (or never existed).
 	// Keystore v1 does not differentiate between 'destroying' and 'removing' keys
@@ -1040,9 +1052,15 @@ func (store *KeyStore) Add(keyID string, keyValue []byte) {
 	store.cache.Add(keyID, keyValue)
 }
 
-// Get value from inner cache
+// Get value from inner cache. Entries purged by key destruction or rotation (the cache has no removal
+// operation, so they are overwritten with an empty value) are reported as missing: the caller then goes
+// to the storage, which either has a newer key or reports that the key does not exist.
 func (store *KeyStore) Get(keyID string) ([]byte, bool) {
-	return store.cache.Get(keyID)
+	value, ok := store.cache.Get(keyID)
+	if !ok || len(value) == 0 {
+		return nil, false
+	}
+	return value, true
 }
 
 // GetHMACSecretKey return key for hmac calculation according to id
@@ -1340,6 +1358,7 @@ func (store *KeyStore) destroyRotatedKeyByIndex(path string, index int) error {
 	if err != nil && !os.IsNotExist(err) {
 		return err
 	}
+	store.forgetHistoricalPrivateKeyFilenames(path)
 
 	return nil
 }
